@@ -134,5 +134,5 @@ def run(ctx):
                       "every input of the bounded model with <= %d atomic groups realised with concrete instructions "
                       "(%d), plus %d seeded random inputs of up to 4x2 groups; distinct = distinct (input, limits, "
                       "memo, lookup tables, produced packing) with at least two atomic groups"
-                      % (3 if ctx.quick else 4, len(ev), len(ev2)),
+                      % (3, len(ev), len(ev2)),
                       extra={"case_counts": s, "model_inputs_printed": len(inputs)}, exhaustive=False)
